@@ -60,7 +60,7 @@ def load_calibrator_state(checkpoint_path: PathLike, _code_state_version: int) -
         cr[f"params_samp_{i}"] for i in range(len(cp["parameters_precision"]))
     ]
 
-    params_samp = np.vstack(params_samp_list).T
+    params_samp = np.vstack(params_samp_list).T.astype(np.float64)
 
     with (checkpoint_path / "scheduler_pickled.pickle").open("rb") as fb:
         scheduler = pickle.load(fb)  # nosec B301
@@ -94,10 +94,10 @@ def load_calibrator_state(checkpoint_path: PathLike, _code_state_version: int) -
         cp["n_jobs"],
         # calibration results
         params_samp,
-        cr["losses_samp"].to_numpy(),
+        cr["losses_samp"].to_numpy(dtype=np.float64),
         series_samp,
-        cr["batch_num_samp"].to_numpy(),
-        cr["method_samp"].to_numpy(),
+        cr["batch_num_samp"].to_numpy(dtype=np.int64),
+        cr["method_samp"].to_numpy(dtype=np.int64),
     )
 
 
